@@ -219,7 +219,11 @@ class NaiveForecaster(_OptionalForecastingHorizonMixin, _BaseWindowForecaster):
 
         # if self.strategy == "drift":
         else:
-            if self.window_length_ != 1:
+            # the window we actually got may be shorter than window_length_
+            # (in-sample forecasts near the start of the series)
+            if len(last_window) < 2:
+                return self._predict_nan(fh)
+            else:
                 if np.any(np.isnan(last_window[[0, -1]])):
                     raise ValueError(
                         f"For {self.strategy},"
@@ -229,7 +233,7 @@ class NaiveForecaster(_OptionalForecastingHorizonMixin, _BaseWindowForecaster):
                 else:
                     # formula for slope
                     slope = (last_window[-1] - last_window[0]) / (
-                        self.window_length_ - 1
+                        len(last_window) - 1
                     )
 
                     # get zero-based index by subtracting the minimum
